@@ -1,1 +1,283 @@
-From RC Require Import Model.Units Model.UnitsRun Proofs.Units.
+(* C09 - unit conversions are linear, invertible and physically correct; derived quantities agree with their
+   definitions for every combination of units; a non-positive speed or distance is rejected.
+
+   All statements are about the exact-rational reading [QN] of Model/Units.v over the table
+   Gen/UnitTables.v, which the translator REGENERATES from the Rust unit files on every run: a changed
+   factor in the source re-runs the finite table facts of Proofs/Units.v (vm_compute over all 77 ordered
+   pairs, 60 + 60 unit triples, 25 rate/distance pairs) and breaks them if it leaves the tolerance.
+   Quantification: every unit of every family (the enumerations are proved to list exactly the variants
+   of the Rust enums), every rational x - every magnitude and sign.
+
+   This file holds only: the SPECIFICATION vocabulary and tables (module C09Spec, trusted base), theorem
+   statements closed by lemmas of Proofs/Units.v, statement pins, non-vacuity examples, Print Assumptions. *)
+From Coq Require Import ZArith QArith Qabs String List Bool.
+From RC Require Import Base.Num Base.Res Gen.UnitTables Model.Units Model.UnitsRun Proofs.Units.
+Import ListNotations.
+Import Units.
+Local Open Scope Q_scope.
+
+(* ------------------------------------------------------------------ specification (trusted) *)
+Module C09Spec.
+  Definition additive (f : Q -> Q) : Prop := forall x y, f (x + y) == f x + f y.
+  Definition homogeneous (f : Q -> Q) : Prop := forall a x, f (a * x) == a * f x.
+  Definition linear (f : Q -> Q) : Prop := additive f /\ homogeneous f.
+  (* a is within the relative tolerance t of the reference value b *)
+  Definition within_rel (t a b : Q) : Prop := Qabs (a - b) <= t * Qabs b.
+
+  (* tolerance granted by the property: 0.1 %; accumulated over the three conversions of a constructor
+     (two factors in the numerator, one in the denominator): 1.001^2 / 0.999 - 1 < 0.31 % *)
+  Definition tol : Q := 1 # 1000.
+  Definition tol3 : Q := 31 # 10000.
+
+  (* exact SI definitions.  metres per unit: international mile, foot, inch *)
+  Definition si_distance (u : dist_unit) : Q :=
+    match u with
+    | Meters => 1 | Kilometers => 1000 | Miles => 1609344 # 1000 | Inches => 254 # 10000 | Feet => 3048 # 10000
+    end.
+  (* seconds per unit *)
+  Definition si_time (u : time_unit) : Q :=
+    match u with Hours => 3600 | Minutes => 60 | Seconds => 1 | Milliseconds => 1 # 1000 end.
+  (* metres per second per unit *)
+  Definition si_speed (u : speed_unit) : Q :=
+    match u with
+    | KilometersPerHour => 1000 # 3600 | MilesPerHour => 1609344 # 3600000 | MetersPerSecond => 1
+    end.
+  (* slope as rise / run per unit *)
+  Definition si_grade (u : grade_unit) : Q :=
+    match u with Percent => 1 # 100 | Decimal => 1 | Millis => 1 # 1000 end.
+  (* kilograms per unit: avoirdupois pound, short ton of 2000 lb *)
+  Definition si_weight (u : weight_unit) : Q :=
+    match u with Pounds => 45359237 # 100000000 | Tons => 90718474 # 100000 | Kg => 1 end.
+  (* an energy rate is an amount of [rate_energy] per one [rate_distance] *)
+  Definition rate_energy (u : energy_rate_unit) : energy_unit :=
+    match u with
+    | GallonsGasolinePerMile => GallonsGasoline | GallonsDieselPerMile => GallonsDiesel
+    | KilowattHoursPerMile | KilowattHoursPerKilometer | KilowattHoursPerMeter => KilowattHours
+    end.
+  Definition rate_distance (u : energy_rate_unit) : dist_unit :=
+    match u with
+    | GallonsGasolinePerMile | GallonsDieselPerMile | KilowattHoursPerMile => Miles
+    | KilowattHoursPerKilometer => Kilometers
+    | KilowattHoursPerMeter => Meters
+    end.
+End C09Spec.
+Import C09Spec.
+
+(* the S lines of the run (Model/UnitsRun.v) judge the implementation's output with these same tables *)
+Theorem c09_runner_uses_this_specification :
+  (forall u, UnitsRun.si_distance u = si_distance u) /\ (forall u, UnitsRun.si_time u = si_time u)
+  /\ (forall u, UnitsRun.si_speed u = si_speed u) /\ (forall u, UnitsRun.si_grade u = si_grade u)
+  /\ (forall u, UnitsRun.si_weight u = si_weight u)
+  /\ (forall u, UnitsRun.rate_energy u = rate_energy u) /\ (forall u, UnitsRun.rate_distance u = rate_distance u)
+  /\ UnitsRun.tol = tol /\ UnitsRun.tol3 = tol3.
+Proof. repeat split; reflexivity. Qed.
+
+(* ------------------------------------------------------------------ the model covers the source's units *)
+(* the enumerations of the model are the variant lists of the seven Rust enums, in declaration order, and
+   every ordered pair of every family has exactly one arm in the regenerated table *)
+Theorem c09_units_and_arms_complete :
+  (UnitTables.distance_variants = map dist_name all_dist /\ UnitTables.time_variants = map time_name all_time
+   /\ UnitTables.speed_variants = map speed_name all_speed /\ UnitTables.energy_variants = map energy_name all_energy
+   /\ UnitTables.energy_rate_variants = map energy_rate_name all_energy_rate
+   /\ UnitTables.grade_variants = map grade_name all_grade /\ UnitTables.weight_variants = map weight_name all_weight)
+  /\ (arms_total dist_name all_dist UnitTables.distance_table = true
+      /\ arms_total time_name all_time UnitTables.time_table = true
+      /\ arms_total speed_name all_speed UnitTables.speed_table = true
+      /\ arms_total energy_name all_energy UnitTables.energy_table = true
+      /\ arms_total grade_name all_grade UnitTables.grade_table = true
+      /\ arms_total weight_name all_weight UnitTables.weight_table = true)
+  /\ (forall u : dist_unit, In u all_dist) /\ (forall u : time_unit, In u all_time)
+  /\ (forall u : speed_unit, In u all_speed) /\ (forall u : energy_unit, In u all_energy)
+  /\ (forall u : energy_rate_unit, In u all_energy_rate)
+  /\ (forall u : grade_unit, In u all_grade) /\ (forall u : weight_unit, In u all_weight).
+Proof.
+  split; [exact gen_variants_agree|]. split; [exact gen_tables_total|].
+  repeat split.
+  - exact all_dist_complete.  - exact all_time_complete.  - exact all_speed_complete.
+  - exact all_energy_complete.  - exact all_energy_rate_complete.
+  - exact all_grade_complete.  - exact all_weight_complete.
+Qed.
+
+(* ------------------------------------------------------------------ linear *)
+(* every conversion is multiplication by the constant of its arm in the regenerated table ... *)
+Theorem c09_convert_is_scaling :
+  (forall u v (x : Q), convert_distance QN u v x == x * k_dist u v)
+  /\ (forall u v (x : Q), convert_time QN u v x == x * k_time u v)
+  /\ (forall u v (x : Q), convert_speed QN u v x == x * k_speed u v)
+  /\ (forall u v (x : Q), convert_energy QN u v x == x * k_energy u v)
+  /\ (forall u v (x : Q), convert_grade QN u v x == x * k_grade u v)
+  /\ (forall u v (x : Q), convert_weight QN u v x == x * k_weight u v).
+Proof.
+  repeat split.
+  - exact convert_distance_factor.  - exact convert_time_factor.  - exact convert_speed_factor.
+  - exact convert_energy_factor.  - exact convert_grade_factor.  - exact convert_weight_factor.
+Qed.
+
+(* ... hence additive and homogeneous, for every ordered pair of every family *)
+Theorem c09_convert_linear :
+  (forall u v, linear (convert_distance QN u v)) /\ (forall u v, linear (convert_time QN u v))
+  /\ (forall u v, linear (convert_speed QN u v)) /\ (forall u v, linear (convert_energy QN u v))
+  /\ (forall u v, linear (convert_grade QN u v)) /\ (forall u v, linear (convert_weight QN u v)).
+Proof.
+  repeat split.
+  - exact (convert_distance_additive u v).  - exact (convert_distance_homogeneous u v).
+  - exact (convert_time_additive u v).  - exact (convert_time_homogeneous u v).
+  - exact (convert_speed_additive u v).  - exact (convert_speed_homogeneous u v).
+  - exact (convert_energy_additive u v).  - exact (convert_energy_homogeneous u v).
+  - exact (convert_grade_additive u v).  - exact (convert_grade_homogeneous u v).
+  - exact (convert_weight_additive u v).  - exact (convert_weight_homogeneous u v).
+Qed.
+
+(* ------------------------------------------------------------------ identity for equal units *)
+Theorem c09_convert_id :
+  (forall u (x : Q), convert_distance QN u u x == x) /\ (forall u (x : Q), convert_time QN u u x == x)
+  /\ (forall u (x : Q), convert_speed QN u u x == x) /\ (forall u (x : Q), convert_energy QN u u x == x)
+  /\ (forall u (x : Q), convert_grade QN u u x == x) /\ (forall u (x : Q), convert_weight QN u u x == x).
+Proof.
+  repeat split.
+  - exact convert_distance_id.  - exact convert_time_id.  - exact convert_speed_id.
+  - exact convert_energy_id.  - exact convert_grade_id.  - exact convert_weight_id.
+Qed.
+
+(* ------------------------------------------------------------------ there and back within 0.1 % *)
+(* all 25 + 16 + 9 + 9 + 9 + 9 ordered pairs, every x *)
+Theorem c09_roundtrip_within_0_1pct :
+  (forall u v (x : Q), within_rel tol (convert_distance QN v u (convert_distance QN u v x)) x)
+  /\ (forall u v (x : Q), within_rel tol (convert_time QN v u (convert_time QN u v x)) x)
+  /\ (forall u v (x : Q), within_rel tol (convert_speed QN v u (convert_speed QN u v x)) x)
+  /\ (forall u v (x : Q), within_rel tol (convert_energy QN v u (convert_energy QN u v x)) x)
+  /\ (forall u v (x : Q), within_rel tol (convert_grade QN v u (convert_grade QN u v x)) x)
+  /\ (forall u v (x : Q), within_rel tol (convert_weight QN v u (convert_weight QN u v x)) x).
+Proof.
+  repeat split.
+  - exact convert_distance_roundtrip.  - exact convert_time_roundtrip.  - exact convert_speed_roundtrip.
+  - exact convert_energy_roundtrip.  - exact convert_grade_roundtrip.  - exact convert_weight_roundtrip.
+Qed.
+
+(* ------------------------------------------------------------------ physical factor within 0.1 % *)
+(* distance, time, speed, grade, weight (the fuel equivalences of the energy family are conventions, the
+   property does not ask for them) *)
+Theorem c09_physical_within_0_1pct :
+  (forall u v (x : Q), within_rel tol (convert_distance QN u v x) (x * (si_distance u / si_distance v)))
+  /\ (forall u v (x : Q), within_rel tol (convert_time QN u v x) (x * (si_time u / si_time v)))
+  /\ (forall u v (x : Q), within_rel tol (convert_speed QN u v x) (x * (si_speed u / si_speed v)))
+  /\ (forall u v (x : Q), within_rel tol (convert_grade QN u v x) (x * (si_grade u / si_grade v)))
+  /\ (forall u v (x : Q), within_rel tol (convert_weight QN u v x) (x * (si_weight u / si_weight v))).
+Proof.
+  repeat split.
+  - exact convert_distance_physical.  - exact convert_time_physical.  - exact convert_speed_physical.
+  - exact convert_grade_physical.  - exact convert_weight_physical.
+Qed.
+
+(* ------------------------------------------------------------------ derived quantities *)
+(* time = distance / speed: for every unit triple and all positive inputs the constructor succeeds, its result is
+   d / s times the combined table factor, and it is within the accumulated tolerance of
+   (d in metres) / (s in metres per second), expressed in the requested time unit *)
+Theorem c09_create_time_spec : forall su du tu (s d : Q), 0 < s -> 0 < d ->
+  exists t : Q, create_time QN s su d du tu = Ok t
+    /\ t == d / s * (k_dist du base_distance_unit / k_speed su base_speed_unit * k_time base_time_unit tu)
+    /\ within_rel tol3 t ((d * si_distance du) / (s * si_speed su) / si_time tu).
+Proof. exact create_time_spec_si. Qed.
+
+(* a non-positive speed or distance is rejected rather than turned into a time *)
+Theorem c09_create_time_rejects : forall su du tu (s d : Q),
+  s <= 0 \/ d <= 0 -> create_time QN s su d du tu = Err err_time.
+Proof. exact create_time_rejects. Qed.
+
+(* speed = distance / time for every unit triple and every positive time (a non-positive time is an error) *)
+Theorem c09_create_speed_spec : forall tu du su (t d : Q), 0 < t ->
+  exists v : Q, create_speed QN t tu d du su = Ok v
+    /\ v == d / t * (k_dist du base_distance_unit / k_time tu base_time_unit * k_speed base_speed_unit su)
+    /\ within_rel tol3 v ((d * si_distance du) / (t * si_time tu) / si_speed su).
+Proof. exact create_speed_spec_si. Qed.
+Theorem c09_create_speed_rejects : forall tu du su (t d : Q),
+  t <= 0 -> create_speed QN t tu d du su = Err err_speed.
+Proof. exact create_speed_rejects. Qed.
+
+(* energy = rate * distance: never rejected, any sign; the distance is first expressed in the distance unit of
+   the rate, the result carries the energy unit of the rate *)
+Theorem c09_create_energy_spec : forall eru du (r d : Q),
+  exists e : Q, create_energy QN r eru d du = Ok (e, rate_energy eru)
+    /\ e == r * d * k_dist du (rate_distance eru)
+    /\ within_rel tol e (r * (d * (si_distance du / si_distance (rate_distance eru)))).
+Proof. exact create_energy_spec_si. Qed.
+
+(* the combined factors of the constructors are within the accumulated tolerance for all 60 + 60 triples *)
+Theorem c09_constructor_factors :
+  (forall su du tu, within_rel tol3 (k_dist du base_distance_unit / k_speed su base_speed_unit * k_time base_time_unit tu)
+                                   (si_distance du / si_speed su / si_time tu))
+  /\ (forall tu du su, within_rel tol3 (k_dist du base_distance_unit / k_time tu base_time_unit * k_speed base_speed_unit su)
+                                      (si_distance du / si_time tu / si_speed su)).
+Proof. split; [exact time_factor_within | exact speed_factor_within]. Qed.
+
+(* ------------------------------------------------------------------ statement pins *)
+Check c09_roundtrip_within_0_1pct :
+  (forall u v (x : Q), Qabs (convert_distance QN v u (convert_distance QN u v x) - x) <= (1 # 1000) * Qabs x)
+  /\ (forall u v (x : Q), Qabs (convert_time QN v u (convert_time QN u v x) - x) <= (1 # 1000) * Qabs x)
+  /\ (forall u v (x : Q), Qabs (convert_speed QN v u (convert_speed QN u v x) - x) <= (1 # 1000) * Qabs x)
+  /\ (forall u v (x : Q), Qabs (convert_energy QN v u (convert_energy QN u v x) - x) <= (1 # 1000) * Qabs x)
+  /\ (forall u v (x : Q), Qabs (convert_grade QN v u (convert_grade QN u v x) - x) <= (1 # 1000) * Qabs x)
+  /\ (forall u v (x : Q), Qabs (convert_weight QN v u (convert_weight QN u v x) - x) <= (1 # 1000) * Qabs x).
+Check c09_physical_within_0_1pct :
+  (forall u v (x : Q), Qabs (convert_distance QN u v x - x * (si_distance u / si_distance v))
+                       <= (1 # 1000) * Qabs (x * (si_distance u / si_distance v)))
+  /\ (forall u v (x : Q), Qabs (convert_time QN u v x - x * (si_time u / si_time v))
+                          <= (1 # 1000) * Qabs (x * (si_time u / si_time v)))
+  /\ (forall u v (x : Q), Qabs (convert_speed QN u v x - x * (si_speed u / si_speed v))
+                          <= (1 # 1000) * Qabs (x * (si_speed u / si_speed v)))
+  /\ (forall u v (x : Q), Qabs (convert_grade QN u v x - x * (si_grade u / si_grade v))
+                          <= (1 # 1000) * Qabs (x * (si_grade u / si_grade v)))
+  /\ (forall u v (x : Q), Qabs (convert_weight QN u v x - x * (si_weight u / si_weight v))
+                          <= (1 # 1000) * Qabs (x * (si_weight u / si_weight v))).
+Check c09_convert_linear :
+  (forall u v, (forall x y : Q, convert_distance QN u v (x + y) == convert_distance QN u v x + convert_distance QN u v y)
+               /\ (forall a x : Q, convert_distance QN u v (a * x) == a * convert_distance QN u v x))
+  /\ (forall u v, linear (convert_time QN u v)) /\ (forall u v, linear (convert_speed QN u v))
+  /\ (forall u v, linear (convert_energy QN u v)) /\ (forall u v, linear (convert_grade QN u v))
+  /\ (forall u v, linear (convert_weight QN u v)).
+Check c09_create_time_spec : forall su du tu (s d : Q), 0 < s -> 0 < d ->
+  exists t : Q, create_time QN s su d du tu = Ok t
+    /\ t == d / s * (k_dist du base_distance_unit / k_speed su base_speed_unit * k_time base_time_unit tu)
+    /\ Qabs (t - (d * si_distance du) / (s * si_speed su) / si_time tu)
+       <= (31 # 10000) * Qabs ((d * si_distance du) / (s * si_speed su) / si_time tu).
+Check c09_create_time_rejects : forall su du tu (s d : Q),
+  s <= 0 \/ d <= 0 -> create_time QN s su d du tu = Err err_time.
+
+(* ------------------------------------------------------------------ non-vacuity *)
+(* a non-identity arm of the regenerated table really scales (10 mi is within 0.1 % of 16.09344 km, and is not 10) *)
+Example c09_nonvacuous_convert :
+  within_rel tol (convert_distance QN Miles Kilometers 10) (1609344 # 100000)
+  /\ ~ convert_distance QN Miles Kilometers 10 == 10.
+Proof. exact ex_miles_km. Qed.
+(* positive inputs exist and give a time (30 km at 60 km/h is 30 min to within 0.01), non-positive ones are errors *)
+Example c09_nonvacuous_create_time :
+  match create_time QN 60 KilometersPerHour 30 Kilometers Minutes with
+  | Ok t => Qle_bool (Qabs (t - 30)) (1 # 100)
+  | _ => false
+  end = true
+  /\ create_time QN 0 KilometersPerHour 30 Kilometers Minutes = Err err_time
+  /\ create_time QN 60 KilometersPerHour (-30) Kilometers Minutes = Err err_time.
+Proof. exact ex_create_time. Qed.
+Example c09_nonvacuous_create_energy :
+  match create_energy QN (2 # 10) KilowattHoursPerKilometer 1000 Meters with
+  | Ok (e, KilowattHours) => Qle_bool (Qabs (e - (2 # 10))) (1 # 1000)
+  | _ => false
+  end = true.
+Proof. exact ex_create_energy. Qed.
+
+Print Assumptions c09_runner_uses_this_specification.
+Print Assumptions c09_units_and_arms_complete.
+Print Assumptions c09_convert_is_scaling.
+Print Assumptions c09_convert_linear.
+Print Assumptions c09_convert_id.
+Print Assumptions c09_roundtrip_within_0_1pct.
+Print Assumptions c09_physical_within_0_1pct.
+Print Assumptions c09_create_time_spec.
+Print Assumptions c09_create_time_rejects.
+Print Assumptions c09_create_speed_spec.
+Print Assumptions c09_create_speed_rejects.
+Print Assumptions c09_create_energy_spec.
+Print Assumptions c09_constructor_factors.
+Print Assumptions c09_nonvacuous_convert.
+Print Assumptions c09_nonvacuous_create_time.
+Print Assumptions c09_nonvacuous_create_energy.
